@@ -433,6 +433,19 @@ def check(ctx):
                 for fe in e["fields"]:
                     if fe["member"] == "name":
                         sites.append((fn, fe["expr"]))
+    def find_let(stmts, name):
+        found = None
+        for st in stmts or []:
+            if isinstance(st, dict) and st.get("k") == "let" and st.get("init") is not None and name in _pb(st["pat"]):
+                found = st["init"]
+            for e2 in (_se(st) if isinstance(st, dict) else []):
+                for x in _walk(e2):
+                    for key in ("then", "stmts", "body"):
+                        v = x.get(key)
+                        if isinstance(v, list):
+                            r_ = find_let(v, name)
+                            found = r_ if r_ is not None else found
+        return found
     for fn, ex in sites:
         seen_ = 0
         while ex.get("k") == "path" and len(ex["segs"]) == 1 and seen_ < 4:
@@ -458,6 +471,13 @@ def check(ctx):
                 break
             ex = init
         t = _et(ex)
+        # `let ident = &func.sig.ident; ident.to_string()`: substitute a let-bound receiver
+        if ex.get("k") == "mcall" and ex["recv"].get("k") == "path" and len(ex["recv"]["segs"]) == 1:
+            init2 = find_let(fn.body, ex["recv"]["segs"][0]) if sites else None
+            if init2 is not None:
+                while init2.get("k") in ("ref", "paren"):
+                    init2 = init2["expr"]
+                t = "%s.%s(%s)" % (_et(init2), ex["method"], ", ".join(_et(a) for a in ex["args"]))
         if re.match(r"^\w+\.sig\.ident\.to_string\(\)$", t):
             r5.ok("%s: CommandInfo.name = %s" % (fn.qname, t))
         else:
